@@ -118,6 +118,15 @@ class Case:
         return rel == base or rel.startswith(base + "/")
 
 
+def upload_plan(rec):
+    """(nfull, block size, window size, uploaded bytes) of the scripted upload that follows an accepted WRQ"""
+    d = dict(rec) if rec != "bad" else {}
+    b, w = d.get("blksize", 512), d.get("windowsize", 1)
+    nfull = min(min(w, 300), max(1, 49152 // max(b, 1)))
+    data = b"".join(gen_bytes(b, k) for k in range(1, nfull + 1)) + b"abc"
+    return nfull, b, w, data
+
+
 def parse_req_obs(impl):
     p = impl.split(" ; ")
     if len(p) != 3:
@@ -313,8 +322,9 @@ class C06(ServerProp):
         if r1.startswith("L error") or r1.startswith("T error"):
             if not r1.startswith("L ") or conv != "-" or before != after:
                 return ("refusal not from the listening port / with effect", "refusal-source")
-        if kind == "wrq" and exists_file and c.ow and conv.startswith("A1"):
-            want = "%s:3:%d" % (rel, fnv(b"abc"))
+        if kind == "wrq" and exists_file and c.ow and conv.startswith("A"):
+            data = upload_plan(recognised(opts))[3]
+            want = "%s:%d:%d" % (rel, len(data), fnv(data))
             if want not in after or any(x.startswith(rel + ":") and x != want for x in after):
                 return ("completed upload with overwrite did not replace the old content entirely", "overwrite-replace")
         return None
@@ -348,7 +358,7 @@ def rand_optlist(rng, hostile=False):
             elif nm == "timeout":
                 v = rng.choice([1, 1, 2, 5, 255, 0, 256, 2 ** 32, 2 ** 64 - 1, 2 ** 64 - 2])
             elif nm == "windowsize":
-                v = rng.choice([1, 2, 3, 4, 8, 64, 65535, 0, 65536, 2 ** 32])
+                v = rng.choice([1, 2, 3, 4, 8, 64, 65, 100, 128, 300, 1000, 65535, 0, 65536, 2 ** 32])
             else:
                 v = rng.choice([0, 1, 12345, 2 ** 32, 2 ** 64 - 1])
             val = str(v).encode()
@@ -433,6 +443,16 @@ class C09(ServerProp):
                 return ("WRQ without options not answered by ACK 0: %s" % r1, "no-ack0")
         # the transfer uses exactly the acknowledged values (duplicate-free option lists)
         names = [r[0] for r in rec]
+        if len(set(names)) == len(names) and kind == "wrq" and conv not in ("-", "."):
+            nfull, b, w, data = upload_plan(rec)
+            want = (["A%d" % (w % 65536)] if nfull == w else []) + ["A%d" % ((nfull + 1) % 65536)]
+            got = []
+            for t in conv.split(" "):
+                if not got or got[-1] != t:
+                    got.append(t)
+            if got != want:
+                return ("upload with windowsize %d: acknowledgements %s, expected %s (one per %d in-order blocks and on the final block)" % (
+                    w, " ".join(got)[:60], " ".join(want), w), "wrq-window")
         if len(set(names)) == len(names) and kind == "rrq" and conv not in ("-",):
             d = dict(rec)
             b = d.get("blksize", 512)
@@ -477,7 +497,9 @@ class C05(ServerProp):
         if r < 0.6:
             return rfc.encode(rand_packet(rng, "quick"))[:3000]
         kind = rng.choice(["rrq", "wrq"])
-        name = rng.choice([b"f", b"f", b"missing", b"../x", b"up%d" % rng.randint(0, 9)])
+        # names that make the file-system calls themselves fail (ENAMETOOLONG, ENOTDIR, EISDIR), not only ENOENT
+        name = rng.choice([b"f", b"f", b"missing", b"../x", b"up%d" % rng.randint(0, 9), b"a" * 255, b"a" * 256, b"b" * 400,
+                           b"f/x", b"f/", b"f/.", b"", b"/", b".", b"sub/" + b"c" * 300, b"\xc3\xa9" * 130])
         vals = [b"0", b"1", b"7", b"8", b"65464", b"65465", b"65536", b"2147483648", b"4294967296", b"1099511627776", b"9223372036854775808",
                 b"18446744073709551615", b"18446744073709551616", b"18446744073709551614", b"-1", b"+5", b"abc", b""]
         opts = [(rng.choice([b"blksize", b"BLKSIZE", b"timeout", b"windowsize", b"tsize", b"foo"]), rng.choice(vals)) for _ in range(rng.randint(1, 3))]
